@@ -19,7 +19,7 @@ type C10 struct{}
 
 func (C10) ID() string { return "C10" }
 func (C10) Rule() string {
-	return "scan half: rapid-generated trees (<=12 nodes, 1-3 roots; 1 in 4 single-root scenarios scan 1-3 explicitly requested paths) with 1-3 extractors (several wanting the same file), 0-2 standalone extractors, 0-2 detectors, 1 in 3 with .gitignore files and gitignore handling on; per scenario: inode limits {1, V-1, V, V+1, one drawn value} around the measured visit count V, size limits {1, s-1, s, s+1} for every file size s present, and cancel() delivered at EVERY seam event k of the fault-free history plus 'cancelled before Scan'; 1 in 4 whole-tree scenarios run on a slow disk under the simulated clock (300-1500 ms per operation) so that the status ticker fires during the walk; image half (world I): layer archives with files of size L-1, L, L+1, 2L for MaxFileBytes=L; evaluation = one scan / one image load; non-trivial = work (an extraction on another file or a plugin run) remained after at least one cancellation instant; distinct = distinct scenario JSON"
+	return "scan half: rapid-generated trees (<=12 nodes, 1-3 roots; 1 in 4 single-root scenarios scan 1-3 explicitly requested paths) with 1-3 extractors (several wanting the same file), 0-2 standalone extractors, 0-2 detectors, 1 in 3 with .gitignore files and gitignore handling on; per scenario: inode limits {1, V-1, V, V+1, one drawn value} around the measured visit count V, size limits {1, s-1, s, s+1} for every file size s present, and cancel() delivered at EVERY seam event k of the fault-free history plus 'cancelled before Scan' (1 in 3 scenarios: the context ends as an expired deadline, Err() = DeadlineExceeded); 1 in 4 whole-tree scenarios run on a slow disk under the simulated clock (300-1500 ms per operation) so that the status ticker fires during the walk; image half (world I): layer archives with files of size L-1, L, L+1, 2L for MaxFileBytes=L; evaluation = one scan / one image load; non-trivial = work (an extraction on another file or a plugin run) remained after at least one cancellation instant; distinct = distinct scenario JSON"
 }
 
 func (C10) Gen(rt *rapid.T, tier string) any {
@@ -56,6 +56,7 @@ func (C10) Gen(rt *rapid.T, tier string) any {
 		}
 	}
 	cfg.MaxInodes = rapid.IntRange(1, 14).Draw(rt, "inodelimit.extra")
+	cfg.CancelDeadline = rapid.IntRange(0, 2).Draw(rt, "cancel-deadline") == 2
 	if len(cfg.PathsToExtract) == 0 && rapid.IntRange(0, 3).Draw(rt, "slowdisk") == 3 {
 		// a slow disk under the simulated clock: the walk outlasts the status-reporting interval,
 		// so the limits must also hold while the status goroutine shares the walk context
